@@ -73,7 +73,7 @@ def AtomParser(string=None):
     bases = [u for u in UNIT_STANDARD.keys() if string.endswith(u)]
     if bases:
         base = max(bases, key=len)
-        string = string[-len(base)-1]
+        string = string[:-len(base)]
         unitid = f"{base:s}"
     else:
         raise Exception('Unknown unit', string, string_bak)
@@ -81,6 +81,8 @@ def AtomParser(string=None):
     prefkeys = [p for p in UNIT_PREFIXES.keys() if string.endswith(p)]
     if prefkeys:
         prefix = max(prefkeys, key=len)
+        if string != f" {prefix}":
+            raise Exception("Unknown unit prefix:", string_bak)
         if isinstance(UNIT_STANDARD[base].prefixes,list) and prefix not in UNIT_STANDARD[base].prefixes:
             raise Exception(f"Unit can have only following prefixes:", UNIT_STANDARD[base].prefixes, prefix)
         elif UNIT_STANDARD[base].prefixes is True and prefix not in UNIT_PREFIXES.keys():
